@@ -20,6 +20,34 @@ from ..core import AnalysisError, Ctx, Func, norm
 from ..util import branch_raises
 from ..poly import Poly, poly_of
 
+
+def _flag_by_compare(fn: ast.AST, value: ast.AST, count_txt: Optional[str], tval: int, fval: int, before_line: float):
+    """`flag = X == tval` (or `X != fval`) where every other value of X has been refused earlier:
+    `if X not in (fval, tval): raise` (canonical: not (X == fval or X == tval)).  X may be a local bound once to the
+    counted expression.  Returns the counted expression's text when the spelling is recognised and right, False when
+    it is recognised and wrong (other constants), None when it is not this spelling."""
+    from ..pat import expand_single_defs as _x
+    if not (isinstance(value, ast.Compare) and len(value.ops) == 1 and isinstance(value.ops[0], (ast.Eq, ast.NotEq))):
+        return None
+    k = const_int(value.comparators[0])
+    left = value.left
+    if k is None:
+        k, left = const_int(value.left), value.comparators[0]
+    if k is None:
+        return None
+    X = norm(left)
+    Xe = norm(_x(fn, left))
+    if count_txt is not None and Xe.replace(" ", "") != count_txt.replace(" ", ""):
+        return None
+    want = canon_test(ast.parse("%s == %d or %s == %d" % (X, fval, X, tval), mode="eval").body, False)
+    refused = any(isinstance(n_, ast.If) and branch_raises(n_.body) and canon_test(n_.test, True) == want and n_.lineno <= before_line
+                  for n_ in walk_no_nested(fn))
+    if not refused:
+        # the refusal may have been structured into an enclosing `if X == fval or X == tval:` block
+        return None
+    right = (isinstance(value.ops[0], ast.Eq) and k == tval) or (isinstance(value.ops[0], ast.NotEq) and k == fval)
+    return Xe if right else False
+
 SPEC = {
     "explanation": (
         "Layout folding and typestate over gaddlemaps/parsers/__init__.py.  R13.1 folds the writer's "
@@ -243,13 +271,36 @@ def reader_layout(ctx: Ctx, f: Func, helper: Optional[Func]):
                     if isinstance(e, ast.Name):
                         helper_call_targets[e.id] = i
 
-    def elem_slice(e):
+    # locals bound once to a tail of the line (`values = line[20:]`): a slice of the tail is a slice of the line shifted
+    # by the tail's start; locals bound once to an expression over one slice of the line name that slice
+    from ..pat import single_defs as _sd
+    sd = _sd(fn)
+    tails: Dict[str, Poly] = {}
+    named: Dict[str, ast.AST] = {}
+    for nm_, v_ in sd.items():
+        if isinstance(v_, ast.Subscript) and isinstance(v_.value, ast.Name) and v_.value.id == line_param \
+                and isinstance(v_.slice, ast.Slice) and v_.slice.upper is None and v_.slice.step is None and v_.slice.lower is not None:
+            k_ = poly_of(v_.slice.lower, leaf)
+            if k_ is not None:
+                tails[nm_] = k_
+        elif nm_ != line_param:
+            named[nm_] = v_
+
+    def elem_slice(e, depth=0):
         if isinstance(e, ast.Name) and e.id in helper_call_targets:
             return helper_slices.get(helper_call_targets[e.id])
+        if isinstance(e, ast.Name) and e.id in named and depth < 3:
+            return elem_slice(named[e.id], depth + 1)
         for sub in ast.walk(e):
             if isinstance(sub, ast.Subscript) and isinstance(sub.value, ast.Name) and sub.value.id == line_param \
                     and isinstance(sub.slice, ast.Slice):
                 return _slice_bounds(sub, leaf)
+            if isinstance(sub, ast.Subscript) and isinstance(sub.value, ast.Name) and sub.value.id in tails \
+                    and isinstance(sub.slice, ast.Slice):
+                b = _slice_bounds(sub, leaf)
+                if b is None or b[1] is None:
+                    return None
+                return (b[0] + tails[sub.value.id], b[1] + tails[sub.value.id])
         return None
 
     tuples: Dict[str, ast.Tuple] = {}
@@ -375,6 +426,23 @@ def r13_1(ctx: Ctx):
     for s_, guards in extra:
         flag = [g_ for g_ in guards if not g_.endswith(" is false")]
         okg = len(guards) == 1 and len(flag) == 1 and flag[0] in flag_defs
+        if len(guards) == 1 and len(flag) == 1 and flag[0] not in flag_defs:
+            # the flag computed by a comparison: `velocities = len(x) == 10` after `if len(x) not in (7, 10): raise`
+            fl_as = [st for st in walk_no_nested(w.node) if isinstance(st, ast.Assign) and norm(st.targets[0]) == flag[0]]
+            cand = fl_as[0].value if len(fl_as) == 1 else None
+            if cand is None:
+                try:
+                    cand = ast.parse(flag[0], mode="eval").body
+                except SyntaxError:
+                    cand = None
+            got = _flag_by_compare(w.node, cand, "len(%s)" % inp_w, 10, 7, getattr(fl_as[0] if fl_as else s_, "lineno", 1e9)) if cand is not None else None
+            if got is None:
+                ctx.ob("R13.1", w, "velocity columns appended under %s" % guards, True,
+                       "the velocity flag of the writer is not set in a recognised form; not decided on this tree", undecided=True, node=w.node)
+            else:
+                ctx.ob("R13.1", w, "velocity columns appended under %s; flag = (%s == 10) after refusing lengths other than 7 and 10" % (guards, got),
+                       bool(got), "velocity columns are emitted exactly for records of ten fields (anything but 7 or 10 is refused)", node=w.node)
+            continue
         if okg:
             # the flag is True exactly for records of 10 fields (7 + 3 velocities) and False for 7
             c10_, c7_ = ctext("len(%s) == 10" % inp_w)[0], ctext("len(%s) == 7" % inp_w)[0]
@@ -433,11 +501,13 @@ def r13_1(ctx: Ctx):
     from ..pat import find as pfind
     pmd = parents_map(d.node)
     ret_dicts = [n_ for n_ in walk_no_nested(d.node) if isinstance(n_, ast.Dict) and any(isinstance(k_, ast.Constant) and k_.value == "velocities" for k_ in n_.keys)]
-    velv = figv = None
+    velv = figv = velcmp = None
     if ret_dicts:
         for k_, v_ in zip(ret_dicts[0].keys, ret_dicts[0].values):
             if k_.value == "velocities" and isinstance(v_, ast.Name):
                 velv = v_.id
+            if k_.value == "velocities" and isinstance(v_, ast.Compare):
+                velcmp = v_
             if k_.value == "position" and isinstance(v_, ast.Tuple) and isinstance(v_.elts[0], ast.Name):
                 figv = v_.elts[0].id
     seen_vals = {}
@@ -460,14 +530,22 @@ def r13_1(ctx: Ctx):
         # the flag is not set by constant assignments under tests of the count: other recognised spelling
         # `if n not in (3, 6): raise` (canonical: n == 3 or n == 6) followed by `velocities = n == 6`
         alt = False
-        for s_ in walk_no_nested(d.node):
-            if isinstance(s_, ast.Assign) and velv and norm(s_.targets[0]) == velv and isinstance(s_.value, ast.Compare) \
-                    and isinstance(s_.value.ops[0], ast.Eq) and const_int(s_.value.comparators[0]) == 6 and isinstance(s_.value.left, ast.Name):
-                ndv = s_.value.left.id
-                want_ = canon_test(ast.parse("%s == 3 or %s == 6" % (ndv, ndv), mode="eval").body, False)
-                alt = any(isinstance(n_, ast.If) and branch_raises(n_.body) and canon_test(n_.test, True) == want_
-                          and n_.lineno < s_.lineno for n_ in walk_no_nested(d.node))
-        if alt:
+        cands_ = [(s_.value, s_.lineno) for s_ in walk_no_nested(d.node) if isinstance(s_, ast.Assign) and velv and norm(s_.targets[0]) == velv]
+        if velcmp is not None:
+            cands_.append((velcmp, velcmp.lineno))
+        for v_, ln_ in cands_:
+            got_ = _flag_by_compare(d.node, v_, None, 6, 3, ln_)
+            if got_ is False:
+                ctx.ob("R13.1", d, "velocities flag: %s" % norm(v_), False,
+                       "three decimal points after the header mean positions only, six mean positions and velocities", node=v_)
+                alt = None
+            elif got_:
+                nm_ = v_.left if const_int(v_.comparators[0]) is not None else v_.comparators[0]
+                ndv = nm_.id if isinstance(nm_, ast.Name) else ndv
+                alt = True
+        if alt is None:
+            pass
+        elif alt:
             ctx.ob("R13.1", d, "velocities flag: %s == 6 after refusing counts other than 3 and 6" % ndv, True,
                    "three decimal points after the header mean positions only, six mean positions and velocities, anything else is refused",
                    node=d.node)
@@ -1042,6 +1120,8 @@ def r13_5(ctx: Ctx):
     empty_exit = {canon_test(ast.parse("self._natoms is None and self._current_atom == 0", mode="eval").body, False)}
     undeclared = canon_test(ast.parse("self._natoms is None", mode="eval").body, True)
     gfill = set(cguards_of(fill, pmc))
+    # nested spelling of the same early exit: under `natoms is None`, `if current_atom == 0: warn; return`
+    empty_exit.add(canon_test(ast.parse("self._current_atom == 0", mode="eval").body, False))
     ctx.ob("R13.5", closing, "back-fill guarded by %s" % sorted(gfill - empty_exit), undeclared in gfill and gfill - {undeclared} <= empty_exit,
            "the count is back-filled exactly when it was not declared up front", node=fill)
     # declared count: a mismatch with the number of records written is an error
@@ -1063,7 +1143,17 @@ def r13_5(ctx: Ctx):
            node=seek_end[-1] if seek_end else closing.node)
     # record size measured over the first record
     bs = [s_ for s_ in walk_no_nested(setup.node) if isinstance(s_, ast.Assign) and attr_chain(s_.targets[0]) == "self._atomline_bytesize"]
-    okb = bool(bs) and norm(bs[0].value).replace(" ", "") == "self._file.tell()-self._init_position"
+    # a local that holds the tell() value stored into _init_position is that position
+    from ..pat import single_defs as _sd13
+    sd_setup = _sd13(setup.node)
+    init_locals = {norm(s_.value) for s_ in walk_no_nested(setup.node) if isinstance(s_, ast.Assign)
+                   and attr_chain(s_.targets[0]) == "self._init_position" and isinstance(s_.value, ast.Name)
+                   and s_.value.id in sd_setup and norm(sd_setup[s_.value.id]) == "self._file.tell()"}
+    bs_txt = norm(bs[0].value).replace(" ", "") if bs else ""
+    for nm_ in init_locals:
+        if bs_txt == "self._file.tell()-%s" % nm_:
+            bs_txt = "self._file.tell()-self._init_position"
+    okb = bool(bs) and bs_txt == "self._file.tell()-self._init_position"
     ctx.ob("R13.5", setup, bs[0] if bs else "record size", okb,
            "the record size is the distance covered by writing the first record", node=bs[0] if bs else setup.node)
     INIT = Poly.sym("INIT")
@@ -1103,6 +1193,9 @@ def r13_5(ctx: Ctx):
     flat.sort(key=lambda s: (s.lineno, s.col_offset))
     tell = [st for st in flat if isinstance(st, ast.Assign) and "_init_position" in norm(st.targets[0])
             and "tell" in norm(st.value)]
+    if not tell:
+        tell = [st for st in flat if isinstance(st, ast.Assign) and isinstance(st.targets[0], ast.Name) and st.targets[0].id in init_locals
+                and norm(st.value) == "self._file.tell()"]
     ok = False
     if tell:
         i = flat.index(tell[0])
@@ -1111,7 +1204,7 @@ def r13_5(ctx: Ctx):
                    and not isinstance(st, (ast.If,))]
         # writes between the count line (either branch) and the tell()
         count_if = [st for st in flat if isinstance(st, ast.If) and "_natoms" in norm(st.test)]
-        last_count_line = max([s.end_lineno for s in count_if] + [placeholder.lineno])
+        last_count_line = max([max(getattr(x, "lineno", 0) for x in ast.walk(s)) for s in count_if] + [placeholder.lineno])
         between = [st for st in flat if last_count_line < st.lineno < tell[0].lineno and
                    any(isinstance(c, ast.Call) and call_name(c) in ("write", "writeline") for c in ast.walk(st))]
         ok = not between
